@@ -90,7 +90,13 @@ func processCPU() time.Duration {
 
 // cpuBudget is B(S) of DESIGN section 1.
 func cpuBudget(size int, mult int) time.Duration {
-	b := 120 * time.Second
+	// A case is reported only after it also exhausted 4x this budget when re-run alone,
+	// i.e. >= 100x the worst CPU time measured on the unchanged tree for its size class
+	// (0.25 s up to 1 KiB, 4 s up to 16 KiB, 12 s above).
+	b := 30 * time.Second
+	if size > 1024 {
+		b = 120 * time.Second
+	}
 	if size > 16*1024 {
 		b = 300 * time.Second
 	}
@@ -227,7 +233,7 @@ func cmdWorker(args []string) int {
 			res.ViolByCode[v.Code]++
 			if len(res.Violations) < 400 {
 				rec := mkRec(cf.property, *profile, c, v.Code, v.Msg)
-				if !*noMin && len(c.Input) > 0 && len(c.Input) <= 8192 && !noMinimise(m) && v.Code != "panic" {
+				if !*noMin && len(c.Input) > 0 && len(c.Input) <= 8192 && minimisable(m, c) && v.Code != "panic" {
 					min, msg := minimise(m, cf.tier, c, v.Code)
 					if len(min) < len(c.Input) {
 						rec.MinInput = base64.StdEncoding.EncodeToString(min)
@@ -341,11 +347,25 @@ func firstRepoFrame(stack string) string {
 
 type noMinimiser interface{ NoMinimise() bool }
 
+type caseMinimiser interface{ MinimiseCase(c *core.Case) bool }
+
 func noMinimise(m core.Monitor) bool {
 	if nm, ok := m.(noMinimiser); ok {
 		return nm.NoMinimise()
 	}
 	return false
+}
+
+// minimisable reports whether byte-level shrinking keeps the case inside the
+// oracle's domain (it does not for inputs whose meaning depends on a generator's shape).
+func minimisable(m core.Monitor, c *core.Case) bool {
+	if noMinimise(m) {
+		return false
+	}
+	if cm, ok := m.(caseMinimiser); ok {
+		return cm.MinimiseCase(c)
+	}
+	return true
 }
 
 // minimise is byte-level delta debugging with the same oracle: a candidate
